@@ -6,6 +6,12 @@ ALL = ["C%02d" % i for i in range(1, 21)]
 
 # property -> (technique, decided clauses (short), not decided / assumptions)
 CLAIMED = {
+ "C14": ("discipline analysis from a frozen guard table: field access sets (atomic consistency), intraprocedural must-locksets with one-level caller summaries, publication-order path search, wait-group/lock sharing (go/ssa)",
+         "C14.1 any field accessed atomically somewhere is accessed atomically everywhere (all shipped structs; frozen set present); C14.2 guarded-field table: accesses under the declared mutex (promoted net.Conn methods of socket: known finding F11); C14.3 nothing written to a callCmd after completion is signalled; C14.4 thrift counters under their direction's lock; C14.5 WaitGroup Add/Wait share a mutex (known finding F13)",
+         "data races on state outside the guard table; real happens-before over schedules (static race freedom is undecidable here: what is decided is the locking/atomic discipline the code itself declares); third-party code"),
+ "C18": ("path-sum enumeration of the limiter counters, atomic access sets, data-dependence of the release on per-session evidence, return-shape analysis (go/ssa)",
+         "C18.1 limiter counters atomic-only; C18.2 take/release path sums and the admission comparison; C18.3 a slot is released only in PostDisconnect, only with admission evidence for that session, recorded only on the admit edge; C18.4 refusal edges return fresh non-OK statuses, qps take admits only with a token",
+         "the rate bound over time (token refill arithmetic against wall-clock intervals); newQPSLimiter divides by zero for QPSInterval > 1s (crash at configuration time, outside the rules); limit updates racing takes beyond the locking discipline (C14.2)"),
  "C05": ("per-protocol reach-set tables (writer/reader agreement), counter-direction sibling check, call classification of connection reads, buffer-alias value flow (go/ssa)",
          "C05.1 all nine Proto implementations cover the full field table in Pack and Unpack (frozen exemptions; websocket status = known finding F4); C05.2 thrift size counters per direction; C05.3 one connection write per frame; C05.5 only full reads on receive paths; C05.6 service method / body never alias the pooled read buffer",
          "round-trip equality over the message space (escaping of quotes/backslashes in the JSON protocols, length boundaries, metadata multimap order), third-party thrift/protobuf framing, chunking inside library readers"),
